@@ -18,7 +18,7 @@ EXTENDS Naturals, Sequences, FiniteSets, TLC, SequencesExt, VerifIO, Json, IOUti
 CONSTANTS Mode, MaxLines, MaxRank
 
 Scales == {"none", "one", "frac", "zero", "neg", "big"}
-BadScales == {"zero", "neg", "big"}
+BadScales == {"zero", "neg", "big", "nan"}
 Opts == [model : BOOLEAN, kw : BOOLEAN, asc : BOOLEAN, norm : BOOLEAN, scale : Scales]
 
 \* contradictory or out-of-range options are refused
